@@ -9,7 +9,9 @@ entries, 24 random orders beyond).  Checked on the implementation, by direct ins
      and no explicit zero for operations that combine or filter entries,
  (3) the result denotes the same array (or is the same number / dense array) for every order,
 and, where an operation model exists (element-wise operations, from_aggregator, permute,
-reshape, squeeze, to_sptenmat, sptenmat.to_sptensor, tensor.to_sptensor),
+reshape, squeeze, to_sptenmat, sptenmat.to_sptensor, tensor.to_sptensor; ttv, ttm, collapse, contract,
+scale through the C02 driver ops; squash; __getitem__ / __setitem__ through the C04 driver op; the
+sptenmat constructor; sptendiag and sptenrand (on its recorded draws) through the C20 driver ops),
  (4) the stored form equals the Lean model's for every order.
 The list of public methods that can return a sparse object is introspected from the classes and
 compared with the list covered here; the evidence tags name what is covered without a model
@@ -39,7 +41,10 @@ RULE = ("every public sparse operation (13 binary element-wise operations x {sca
         "tensor.to_sptensor, sptendiag, sptenrand, from_function) on shapes of order 1..4 with <= 24 cells and 0..6 "
         "stored entries of both signs; each case under all n! stored orders of each sparse operand for n <= 4 "
         "(both operands: the full product when it has <= 36 combinations, otherwise each operand alone plus 12 "
-        "random pairs) and 24 random orders beyond; a deterministic family `collisions`: for ttv / ttm / collapse / "
+        "random pairs) and 24 random orders beyond; a family `cell_pairs` that ENUMERATES every pair of distinct cells (and sampled triples) of the non-cubical "
+        "shapes (2,3) (2,3,4) (1,2,3,4) ((3,2) (4,3,2) in thorough) as rows of one from_aggregator call (sum / max / len) "
+        "and split over the operands of S+T, S-T, logical_or / xor / and, every stored order, against the dense "
+        "reference; a deterministic family `collisions`: for ttv / ttm / collapse / "
         "contract / mttkrp / to_sptenmat / __getitem__ / squash / scale, fixed shapes (3,5,3) (2,3,4) (4,2,3) (3,4) "
         "(4,3) (2,2,3,2) ..., EVERY choice of modes (every subset for order <= 3; first / each middle / last / last "
         "several / all but one / all for order 4; every pair of equal modes for contract), operands with 3..5 "
@@ -236,6 +241,87 @@ def Aj(c, a):
     return {"shape": c["shape"], **a}
 
 
+def Xj(c, a):
+    return {"kind": "sparse", "shape": c["shape"], **a}
+
+
+def matarg(M):
+    return {"rows": M, "m": len(M), "n": len(M[0]) if M else 0}
+
+
+def m_ttv(c, a, b):
+    p = c["p"]
+    dims = p["dims"] if "dims" in p else [p["d"]]
+    vs = p["vs"] if "vs" in p else [p["v"]]
+    return {"op": "c02_ttv", "X": Xj(c, a), "vs": vs, "dims": dims, "excl": None, "sel": sorted(dims),
+            "ws": [vs[dims.index(d)] for d in sorted(dims)]}
+
+
+def m_ttm(c, a, b):
+    p = c["p"]
+    dims = p["dims"] if "dims" in p else [p["d"]]
+    Ms = [matarg(M) for M in (p["Ms"] if "Ms" in p else [p["M"]])]
+    return {"op": "c02_ttm", "X": Xj(c, a), "Ms": Ms, "dims": dims, "excl": None, "tr": False, "sel": sorted(dims),
+            "msel": [Ms[dims.index(d)] for d in sorted(dims)]}
+
+
+def m_collapse(c, a, b):
+    p = c["p"]
+    return {"op": "c02_collapse", "X": Xj(c, a), "dims": p["dims"], "fun": p["f"], "sel": sorted(p["dims"])}
+
+
+def m_scale(kind):
+    def f(c, a, b):
+        p = c["p"]
+        F = {"kind": "array", "data": p["v"]} if kind == "array" else {"kind": "dense", "shape": [len(p["v"])], "data": p["v"]}
+        return {"op": "c02_scale", "X": Xj(c, a), "dims": [p["d"]], "sel": [p["d"]], "F": F}
+    return f
+
+
+FULL = {"slice": [None, None, None]}
+
+
+def m_index(kind):
+    def f(c, a, b):
+        p, N = c["p"], len(c["shape"])
+        if kind == "slices":
+            op = {"op": "read", "key": {"k": "region", "parts": [{"slice": [lo, None, None]} for lo in p["lo"]]}}
+        elif kind == "subs":
+            op = {"op": "read", "key": {"k": "subs", "rows": p["q"]}}
+        elif kind == "int":
+            op = {"op": "read", "key": {"k": "region", "parts": [{"int": p["k"]} if m == p["n"] else FULL for m in range(N)]}}
+        elif kind == "list":
+            op = {"op": "read", "key": {"k": "region", "parts": [{"list": p["ks"]} if m == p["n"] else FULL for m in range(N)]}}
+        elif kind == "set:scalar":
+            op = {"op": "write", "key": {"k": "region", "parts": [{"int": x} for x in p["i"]]}, "rhs": {"r": "scalar", "v": p["v"]}}
+        else:  # set:subs
+            op = {"op": "write", "key": {"k": "subs", "rows": p["q"]}, "rhs": {"r": "col", "v": p["v"]}}
+        return {"op": "c04_sparse", "start": Aj(c, a), "ops": [op]}
+    return f
+
+
+def unwrap_model(m):
+    """replies of the C02 (model + spec) and C04 (history) driver ops in the {"ok": ...} / reject form."""
+    if not isinstance(m, dict):
+        return m
+    if "model" in m:
+        return m["model"]
+    if "steps" in m:
+        st = m["steps"][0]
+        out = st["out"]
+        if out.get("reject"):
+            return {"reject": True}
+        if out.get("written"):
+            return {"ok": {"sp": st["state"]}}
+        if "sptensor" in out:
+            return {"ok": {"sp": out["sptensor"]}}
+        if "scalar" in out:
+            return {"ok": {"num": out["scalar"]}}
+        if "vec" in out:
+            return {"ok": {"arr": {"shape": [len(out["vec"]), 1], "data": out["vec"]}}}
+    return m
+
+
 class Op:
     def __init__(self, name, params, run, model=None, two=False, no_zero=True, public=None, nmin=1):
         self.name, self.params, self.run, self.model, self.two, self.no_zero = name, params, run, model, two, no_zero
@@ -295,28 +381,28 @@ OPS += [
     Op("mttkrp", lambda rng, s: {"n": rng.randrange(len(s)), "U": [[[rng.choice([-1, 0, 1, 2]) for _ in range(2)] for _ in range(m)] for m in s]},
        lambda A, B, p: A.mttkrp([np.array(u, dtype=float) for u in p["U"]], p["n"]), None, nmin=2),
     Op("collapse", lambda rng, s: {"dims": sorted(rng.sample(range(len(s)), rng.randint(1, len(s)))), "f": rng.choice(["sum", "max"])},
-       lambda A, B, p: A.collapse(np.array(p["dims"]), sum if p["f"] == "sum" else np.max), None),
+       lambda A, B, p: A.collapse(np.array(p["dims"]), sum if p["f"] == "sum" else np.max), m_collapse),
     Op("permute", lambda rng, s: {"order": gen.perm(rng, len(s))}, lambda A, B, p: A.permute(np.array(p["order"])),
        lambda c, a, b: {"op": "sp_permute", "S": Aj(c, a), "order": c["p"]["order"]}),
     Op("squeeze", _none, lambda A, B, p: A.squeeze(), lambda c, a, b: {"op": "sp_squeeze", "S": Aj(c, a)}),
     Op("scale:vector", lambda rng, s: (lambda d: {"d": d, "v": [rng.choice([-1, 0, 1, 2]) for _ in range(s[d])]})(rng.randrange(len(s))),
-       lambda A, B, p: A.scale(np.array(p["v"], dtype=float), p["d"]), None, public="scale"),
+       lambda A, B, p: A.scale(np.array(p["v"], dtype=float), p["d"]), m_scale("array"), public="scale"),
     Op("scale:tensor", lambda rng, s: (lambda d: {"d": d, "v": [rng.choice([-1, 0, 1, 2]) for _ in range(s[d])]})(rng.randrange(len(s))),
-       lambda A, B, p: A.scale(ttb.tensor(np.array(p["v"], dtype=float)), np.array([p["d"]])), None, public="scale"),
-    Op("squash", _none, lambda A, B, p: A.squash(), None, nmin=1),
+       lambda A, B, p: A.scale(ttb.tensor(np.array(p["v"], dtype=float)), np.array([p["d"]])), m_scale("dense"), public="scale"),
+    Op("squash", _none, lambda A, B, p: A.squash(), lambda c, a, b: {"op": "sp_squash", "A": Aj(c, a)}, nmin=1),
     Op("ttv", lambda rng, s: (lambda d: {"d": d, "v": [rng.choice([-1, 0, 1, 2]) for _ in range(s[d])]})(rng.randrange(len(s))),
-       lambda A, B, p: A.ttv(np.array(p["v"], dtype=float), p["d"]), None),
+       lambda A, B, p: A.ttv(np.array(p["v"], dtype=float), p["d"]), m_ttv),
     Op("ttm", lambda rng, s: (lambda d: {"d": d, "M": [[rng.choice([-1, 0, 1, 2]) for _ in range(s[d])] for _ in range(rng.randint(1, 3))]})(rng.randrange(len(s))),
-       lambda A, B, p: A.ttm(np.array(p["M"], dtype=float), p["d"]), None),
+       lambda A, B, p: A.ttm(np.array(p["M"], dtype=float), p["d"]), m_ttm),
     Op("getitem:slices", lambda rng, s: {"lo": [rng.randrange(m) for m in s]},
-       lambda A, B, p: A[tuple(slice(lo, None) for lo in p["lo"])], None, public="__getitem__"),
+       lambda A, B, p: A[tuple(slice(lo, None) for lo in p["lo"])], m_index("slices"), public="__getitem__"),
     Op("getitem:subs", lambda rng, s: {"q": [rng.choice(gen.all_subs(s)) for _ in range(rng.randint(1, 4))]},
-       lambda A, B, p: A[np.array(p["q"], dtype=int)], None, public="__getitem__"),
+       lambda A, B, p: A[np.array(p["q"], dtype=int)], m_index("subs"), public="__getitem__"),
     Op("setitem:scalar", lambda rng, s: {"i": rng.choice(gen.all_subs(s)), "v": rng.choice([0, 5, -3])},
-       lambda A, B, p: _setitem(A, tuple(p["i"]), p["v"]), None, public="__setitem__"),
+       lambda A, B, p: _setitem(A, tuple(p["i"]), p["v"]), m_index("set:scalar"), public="__setitem__"),
     Op("setitem:subs", lambda rng, s: (lambda q: {"q": q, "v": [rng.choice([0, 7, -4]) for _ in q]})(
         [list(t) for t in {tuple(rng.choice(gen.all_subs(s))) for _ in range(rng.randint(1, 3))}]),
-       lambda A, B, p: _setitem(A, np.array(p["q"], dtype=int), np.array(p["v"], dtype=float).reshape(-1, 1)), None, public="__setitem__"),
+       lambda A, B, p: _setitem(A, np.array(p["q"], dtype=int), np.array(p["v"], dtype=float).reshape(-1, 1)), m_index("set:subs"), public="__setitem__"),
     Op("to_sptenmat", lambda rng, s: (lambda o, k: {"r": o[:k], "c": o[k:]})(gen.perm(rng, len(s)), rng.randint(0, len(s))),
        lambda A, B, p: A.to_sptenmat(np.array(p["r"], dtype=int), np.array(p["c"], dtype=int)),
        lambda c, a, b: {"op": "to_sptenmat", "S": Aj(c, a), "rdims": c["p"]["r"], "cdims": c["p"]["c"]}),
@@ -333,11 +419,11 @@ OPS += [
                                                np.arange(1, len(A.shape), dtype=int), tuple(A.shape)), None,
        public="sptenmat.from_array"),
     Op("ttv:dims", None, lambda A, B, p: A.ttv([np.array(v, dtype=float) for v in p["vs"]], np.array(p["dims"], dtype=int)),
-       None, public="ttv"),
+       m_ttv, public="ttv"),
     Op("ttm:dims", None, lambda A, B, p: A.ttm([np.array(M, dtype=float) for M in p["Ms"]], np.array(p["dims"], dtype=int)),
-       None, public="ttm"),
-    Op("getitem:int", None, lambda A, B, p: A[_key_at(A, p["n"], p["k"])], None, public="__getitem__"),
-    Op("getitem:list", None, lambda A, B, p: A[_key_at(A, p["n"], list(p["ks"]))], None, public="__getitem__"),
+       m_ttm, public="ttm"),
+    Op("getitem:int", None, lambda A, B, p: A[_key_at(A, p["n"], p["k"])], m_index("int"), public="__getitem__"),
+    Op("getitem:list", None, lambda A, B, p: A[_key_at(A, p["n"], list(p["ks"]))], m_index("list"), public="__getitem__"),
     Op("sptenmat.full_norm", lambda rng, s: {"r": [0]},
        lambda A, B, p: (A.to_sptenmat(np.array(p["r"], dtype=int)).full(), A.to_sptenmat(np.array(p["r"], dtype=int)).norm(),
                         A.to_sptenmat(np.array(p["r"], dtype=int)).double()), None, public="sptenmat.full"),
@@ -371,7 +457,9 @@ class OrderIndependence(Family):
                 "C06_wf_gt", "C06_wf_ge", "C06_wf_shape_ops", "C06_wf_conversions", "C06_perm_add", "C06_perm_sub",
                 "C06_perm_mul", "C06_perm_div", "C06_perm_and", "C06_perm_or", "C06_perm_xor", "C06_perm_eq",
                 "C06_perm_ne", "C06_perm_lt", "C06_perm_le", "C06_perm_gt", "C06_perm_ge", "C06_perm_unary",
-                "C06_perm_lookups", "C06_perm_shape_ops")
+                "C06_perm_lookups", "C06_perm_shape_ops", "C06_same_array_same_entries", "C06_wf_ttv", "C06_perm_ttv",
+                "C06_perm_ttv_core", "C06_wf_collapse", "C06_perm_collapse", "C06_wf_contract", "C06_perm_contract",
+                "C06_wf_perm_scale", "C06_wf_ttm", "C06_perm_ttm", "C06_wf_squash", "C06_perm_squash", "C06_perm_indexing")
 
     def gen(self, rng, tier):
         out = []
@@ -383,6 +471,8 @@ class OrderIndependence(Family):
                 s = small_shape(rng, op.nmin)
                 a = rand_entries(rng, s, 5 if op.two else 6)
                 c = {"op": op.name, "shape": s, "a": a, "p": op.params(rng, s), "seed": rng.getrandbits(32)}
+                if op.name == "collapse" and not a["subs"]:
+                    c["p"]["f"] = "sum"   # np.max of no values raises inside the user's reducer: not a sparse-tensor matter
                 if op.two:
                     c["b"] = rand_entries(rng, s, 4)
                     if op.name == "isequal" and rng.random() < 0.5:
@@ -420,7 +510,7 @@ class OrderIndependence(Family):
         if c["op"] == "reshape":
             return {"op": "sp_reshape", "S": Aj(c, a), "shape": c["p"]["t"], "old_modes": None}
         if c["op"] == "contract":
-            return None
+            return {"op": "c02_contract", "X": Xj(c, a), "a": c["p"]["i"], "b": c["p"]["j"]}
         op = OPMAP[c["op"]]
         return op.model(c, a, b) if op.model else None
 
@@ -451,12 +541,13 @@ class OrderIndependence(Family):
             opname = c["op"]
             op = OPMAP.get(opname)
             no_zero = True if op is None else op.no_zero
-            modelled = (op is not None and op.model is not None) or opname == "reshape"
+            modelled = (op is not None and op.model is not None) or opname in ("reshape", "contract")
             tags = [opname, f"orders{min(len(runs), 99)}", f"nnzA{len(c['a']['subs'])}", "modelled" if modelled else "impl-only"]
             first = None
             verdict = None
             for oa, ob, impl, has_model in runs:
                 m = next(models) if has_model else None
+                m = unwrap_model(m)
                 if verdict is not None:
                     continue
                 where = f"{opname} with A stored in order {oa}" + (f", B in order {ob}" if ob is not None else "")
@@ -625,7 +716,9 @@ class Collisions(OrderIndependence):
     entries that collide after the operation and are stored non-adjacently; every "which modes" choice; both
     sides of the densify switch; cancelling and non-cancelling collisions; all stored orders."""
     name = "collisions"
-    theorems = ("C06_aggregator_wf", "C06_perm_aggregator", "C06_denote_perm", "C06_wf_conversions")
+    theorems = ("C06_aggregator_wf", "C06_perm_aggregator", "C06_denote_perm", "C06_wf_conversions", "C06_wf_ttv",
+                "C06_perm_ttv", "C06_wf_collapse", "C06_perm_collapse", "C06_wf_contract", "C06_perm_contract",
+                "C06_wf_ttm", "C06_perm_ttm", "C06_wf_perm_scale", "C06_wf_squash", "C06_perm_squash", "C06_perm_indexing")
 
     def gen(self, rng, tier):
         out = []
@@ -710,6 +803,119 @@ class Collisions(OrderIndependence):
                         add("contract", s, {"subs": ss, "vals": vv}, {"i": i, "j": j})
         return out
 
+
+# ----------------------------------------------------------------------------
+# every pair of distinct cells of small non-cubical shapes as operands of the aggregating paths
+# ----------------------------------------------------------------------------
+PAIR_SHAPES = [[2, 3], [2, 3, 4], [1, 2, 3, 4], [3, 2], [4, 3, 2]]
+PAIR_OPS = {
+    "add": (lambda a, b: a + b, np.add), "sub": (lambda a, b: a - b, np.subtract),
+    "or": (lambda a, b: a.logical_or(b), lambda x, y: np.logical_or(x != 0, y != 0).astype(float)),
+    "xor": (lambda a, b: a.logical_xor(b), lambda x, y: np.logical_xor(x != 0, y != 0).astype(float)),
+    "and": (lambda a, b: a.logical_and(b), lambda x, y: np.logical_and(x != 0, y != 0).astype(float)),
+}
+
+
+def expand_any(r, shape):
+    if isinstance(r, ttb.sptensor):
+        a = np.zeros(tuple(shape))
+        if np.asarray(r.subs).size:
+            for sub, v in zip(np.asarray(r.subs).tolist(), np.asarray(r.vals).reshape(-1).tolist()):
+                a[tuple(int(k) for k in sub)] += v
+        return a
+    return np.array(r.data, dtype=float)
+
+
+class CellPairs(Family):
+    """For small NON-cubical shapes whose extents differ (a later mode larger than an earlier one and the
+    reverse), EVERY pair of distinct cells (and a sample of triples): as the rows of one from_aggregator call
+    (sum / max / len, every order of the rows), and split over the two operands of S+T, S-T, logical_or,
+    logical_xor, logical_and (and both in one operand, every stored order).  Each result is compared with the
+    dense reference and across orders, and inspected for well-formedness: two different subscripts must never
+    be merged, whatever linearisation the code uses internally."""
+    name = "cell_pairs"
+    theorems = ("C06_aggregator_wf", "C06_perm_aggregator", "C06_perm_add", "C06_perm_sub", "C06_perm_or",
+                "C06_perm_xor", "C06_perm_and")
+
+    def gen(self, rng, tier):
+        out = []
+        shapes = PAIR_SHAPES[:3] if tier == "quick" else PAIR_SHAPES
+        va, vb, vc = rng.choice([(2, 3, 5), (1, -2, 4), (3, 1, -1)])
+        for s in shapes:
+            cells = gen.all_subs(s)
+            for x in range(len(cells)):
+                for y in range(x + 1, len(cells)):
+                    out.append({"shape": s, "cells": [cells[x], cells[y]], "vals": [va, vb]})
+            for _ in range(40 if tier == "quick" else 200):
+                t = rng.sample(cells, 3)
+                out.append({"shape": s, "cells": t, "vals": [va, vb, vc]})
+        return out
+
+    def evaluate(self, cases):
+        out = []
+        for c in cases:
+            out.append(self.one(c))
+        return out
+
+    def one(self, c):
+        s, cells, vals = c["shape"], c["cells"], c["vals"]
+        n = len(cells)
+        tags = [f"cells{gen.numel(s)}", f"k{n}", "shape:" + "x".join(map(str, s))]
+        want = np.zeros(tuple(s))
+        for sub, v in zip(cells, vals):
+            want[tuple(sub)] = v
+        # (a) one from_aggregator call, every order of the rows, three reducers
+        for fname, fh, red in (("sum", "sum", sum), ("max", np.max, max), ("len", len, len)):
+            ref = np.zeros(tuple(s))
+            for sub, v in zip(cells, vals):
+                ref[tuple(sub)] = red([v])
+            for o in itertools.permutations(range(n)):
+                subs = np.array([cells[k] for k in o], dtype=int)
+                vv = np.array([vals[k] for k in o], dtype=float).reshape(-1, 1)
+                r = call(lambda: ttb.sptensor.from_aggregator(subs, vv, tuple(s), fh))
+                where = f"from_aggregator({fname}) of rows {subs.tolist()} with values {vv.reshape(-1).tolist()} in shape {s}"
+                if "ok" not in r:
+                    return Verdict("violation", f"{where}: raised {r.get('exc')}: {r.get('msg')}", r, None, jval(ref), tags)
+                p = wf_sptensor(r["ok"], True)
+                if p:
+                    return Verdict("violation", f"{where}: result not well-formed: {p}", stored(r["ok"]), None, jval(ref), tags)
+                if not np.array_equal(expand_any(r["ok"], s), ref):
+                    return Verdict("violation", f"{where}: entries differ from the values given per subscript "
+                                   "(distinct subscripts merged or misplaced)", stored(r["ok"]), None, jval(ref), tags)
+        # (b) the cells split over two operands / both in the first operand, every stored order
+        splits = [([0], list(range(1, n))), (list(range(n)), [n - 1]), (list(range(n)), [])]
+        for ia, ib in splits:
+            Ad = np.zeros(tuple(s))
+            Bd = np.zeros(tuple(s))
+            for k in ia:
+                Ad[tuple(cells[k])] = vals[k]
+            for k in ib:
+                Bd[tuple(cells[k])] = 2 * vals[k]
+            for opname, (f, ref) in PAIR_OPS.items():
+                want2 = ref(Ad, Bd)
+                for oa in itertools.permutations(ia):
+                    for ob in itertools.permutations(ib):
+                        A = gen.mk_sptensor(ttb, s, [cells[k] for k in oa], [vals[k] for k in oa])
+                        Bt = gen.mk_sptensor(ttb, s, [cells[k] for k in ob], [2 * vals[k] for k in ob])
+                        r = call(lambda: f(A, Bt))
+                        where = (f"{opname} of A = {[(cells[k], vals[k]) for k in oa]} and "
+                                 f"B = {[(cells[k], 2 * vals[k]) for k in ob]} in shape {s}")
+                        if "ok" not in r:
+                            return Verdict("violation", f"{where}: raised {r.get('exc')}: {r.get('msg')}", r, None, jval(want2), tags)
+                        if isinstance(r["ok"], ttb.sptensor):
+                            p = wf_sptensor(r["ok"], True)
+                            if p:
+                                return Verdict("violation", f"{where}: result not well-formed: {p}", stored(r["ok"]), None, jval(want2), tags)
+                        if not np.array_equal(expand_any(r["ok"], s), want2):
+                            return Verdict("violation", f"{where}: differs from the dense result (distinct subscripts merged "
+                                           "or misplaced)", stored(r["ok"]), None, jval(want2), tags)
+        return Verdict("ok", "", None, None, None, tags, True)
+
+    def shrink(self, case):
+        if len(case["cells"]) > 2:
+            for k in range(len(case["cells"])):
+                yield {**case, "cells": case["cells"][:k] + case["cells"][k + 1:], "vals": case["vals"][:k] + case["vals"][k + 1:]}
+
 def norm_model(opname, mm):
     """bring the model's reply to the canonical stored form used for the implementation."""
     if opname == "permute" or opname == "reshape":
@@ -718,6 +924,18 @@ def norm_model(opname, mm):
         return {"num": mm["scalar"]} if "scalar" in mm else {"sp": mm["obj"]}
     if opname == "to_sptenmat":
         return {"spm": mm}
+    if opname == "squash":
+        return {"sp": mm["sp"]}
+    if isinstance(mm, dict) and "kind" in mm:
+        k = mm["kind"]
+        if k == "sparse":
+            return {"sp": {x: mm[x] for x in ("shape", "subs", "vals")}}
+        if k == "dense":
+            return {"dn": {x: mm[x] for x in ("shape", "data")}}
+        if k == "scalar":
+            return {"num": mm["value"]}
+        if k == "vec":
+            return {"arr": {"shape": [len(mm["data"])], "data": mm["data"]}}
     return mm
 
 
@@ -728,7 +946,8 @@ class Constructors(Family):
     """from_aggregator with repeated / cancelling / reordered rows; sptenmat constructor with repeated rows;
     tensor.to_sptensor; sptendiag; sptenrand / from_function (well-formedness only)."""
     name = "constructors"
-    theorems = ("C06_ctor_keeps", "C06_ctor_rejects", "C06_aggregator_wf", "C06_perm_aggregator", "C06_wf_conversions")
+    theorems = ("C06_ctor_keeps", "C06_ctor_rejects", "C06_aggregator_wf", "C06_perm_aggregator", "C06_wf_conversions",
+                "C06_wf_sptenmat_ctor", "C06_perm_sptenmat_ctor", "C06_wf_sptendiag", "C06_wf_sptenrand")
 
     def gen(self, rng, tier):
         out = []
@@ -796,7 +1015,8 @@ class Constructors(Family):
                     impl = call(lambda subs=subs, vals=vals: ttb.sptenmat(
                         np.array(subs, dtype=int).reshape(len(subs), 2), np.array(vals, dtype=float).reshape(-1, 1),
                         np.array(c["r"], dtype=int), np.array(c["c"], dtype=int), tuple(s)))
-                    runs.append((o, impl, False))
+                    runs.append((o, impl, True))
+                    reqs.append({"op": "spm_ctor", "subs": subs, "vals": vals, "rdims": c["r"], "cdims": c["c"], "tshape": s})
                     impl2 = call(lambda subs=subs, vals=vals: ttb.sptenmat(
                         np.array(subs, dtype=int).reshape(len(subs), 2), np.array(vals, dtype=float).reshape(-1, 1),
                         np.array(c["r"], dtype=int), np.array(c["c"], dtype=int), tuple(s)).to_sptensor())
@@ -806,12 +1026,28 @@ class Constructors(Family):
                 runs.append(([], call(lambda: T.to_sptensor()), True))
                 reqs.append({"op": "to_sptensor", "T": {"shape": s, "data": c["data"]}})
             elif c["k"] == "sptendiag":
-                runs.append(([], call(lambda: ttb.sptendiag(np.array(c["el"], dtype=float), tuple(s))), False))
+                runs.append(([], call(lambda: ttb.sptendiag(np.array(c["el"], dtype=float), tuple(s))), True))
+                reqs.append({"op": "gen_sptendiag", "elements": c["el"], "shape": s})
             elif c["k"] == "sptenrand":
+                rec = []
+                orig = np.random.uniform
+
+                def spy(*a, **k):
+                    x = orig(*a, **k)
+                    rec.append(np.array(x))
+                    return x
+
                 def draw():
                     np.random.seed(c["npseed"])
-                    return ttb.sptenrand(tuple(s), nonzeros=c["nz"])
-                runs.append(([], call(draw), False))
+                    np.random.uniform = spy
+                    try:
+                        return ttb.sptenrand(tuple(s), nonzeros=c["nz"])
+                    finally:
+                        np.random.uniform = orig
+                runs.append(([], call(draw), True))
+                reqs.append({"op": "gen_sptenrand", "shape": s, "density": None, "nonzeros": c["nz"],
+                             "draws": [jval(np.asarray(d).reshape(-1, len(s))) for d in rec[:-1]],
+                             "vals": jval(np.asarray(rec[-1]).reshape(-1)) if rec else []})
             else:
                 a = c["a"]
                 runs.append(([], call(lambda: ttb.sptensor(np.array(a["subs"], dtype=int).reshape(len(a["subs"]), len(s)),
@@ -823,7 +1059,7 @@ class Constructors(Family):
         out = []
         for c, runs in zip(cases, plans):
             tags = [c["k"]] + ([c["f"]] if "f" in c else [])
-            tags.append("modelled" if c["k"] in ("agg", "to_sptensor", "ctor") else "impl-only")
+            tags.append("modelled")
             verdict = None
             firsts = {}
             for k, (o, impl, has_model) in enumerate(runs):
@@ -844,6 +1080,9 @@ class Constructors(Family):
                 if verdict is not None:
                     continue
                 if c["k"] == "sptenrand":
+                    mm = (m or {}).get("ok", {}).get("S")
+                    if mm is None or not deep_eq(sparse_j(r), mm):
+                        verdict = Verdict("corr", "sptenrand: stored form differs from the model's on the recorded draws", stored(r), m, None, tags)
                     continue
                 d = denote(r)
                 if slot not in firsts:
@@ -853,7 +1092,8 @@ class Constructors(Family):
                     continue
                 if m is not None:
                     mm = m.get("ok") if c["k"] != "to_sptensor" else m.get("sp")
-                    if mm is None or not deep_eq(sparse_j(r), mm):
+                    got = sptenmat_j(r) if isinstance(r, ttb.sptenmat) else sparse_j(r)
+                    if mm is None or not deep_eq(got, mm):
                         verdict = Verdict("corr", f"{c['k']}: stored form differs from the model's", stored(r), m, None, tags)
             if verdict is None and c["k"] in ("agg", "sptenmat") and firsts:
                 # the aggregated array itself
@@ -872,14 +1112,14 @@ class Constructors(Family):
 SPARSE_DUNDERS = {"__add__", "__sub__", "__mul__", "__rmul__", "__truediv__", "__neg__", "__pos__", "__eq__", "__ne__",
                   "__lt__", "__le__", "__gt__", "__ge__", "__getitem__", "__setitem__"}
 COVERED = {
-    "sptensor": {"__init__": "ctor", "from_aggregator": "model", "from_function": "impl", "copy": "impl", "__deepcopy__": "impl",
-                 "collapse": "impl", "contract": "impl", "elemfun": "model", "to_sptenmat": "model", "logical_and": "model",
+    "sptensor": {"__init__": "ctor", "from_aggregator": "model", "from_function": "model", "copy": "impl", "__deepcopy__": "impl",
+                 "collapse": "model", "contract": "model", "elemfun": "model", "to_sptenmat": "model", "logical_and": "model",
                  "logical_not": "model", "logical_or": "model", "logical_xor": "model", "ones": "model", "permute": "model",
-                 "reshape": "model", "scale": "impl", "squeeze": "model", "ttv": "impl", "ttm": "impl", "squash": "impl",
+                 "reshape": "model", "scale": "model", "squeeze": "model", "ttv": "model", "ttm": "model", "squash": "model",
                  "__add__": "model", "__sub__": "model", "__mul__": "model", "__rmul__": "model", "__truediv__": "model",
                  "__neg__": "model", "__pos__": "model", "__eq__": "model", "__ne__": "model", "__lt__": "model", "__le__": "model",
-                 "__gt__": "model", "__ge__": "model", "__getitem__": "impl", "__setitem__": "impl"},
-    "sptenmat": {"__init__": "impl", "from_array": "impl", "copy": "impl", "__deepcopy__": "impl", "to_sptensor": "model",
+                 "__gt__": "model", "__ge__": "model", "__getitem__": "model", "__setitem__": "model"},
+    "sptenmat": {"__init__": "model", "from_array": "impl", "copy": "impl", "__deepcopy__": "impl", "to_sptensor": "model",
                  "__pos__": "impl", "__neg__": "impl", "__setitem__": "impl"},
 }
 
@@ -928,7 +1168,7 @@ class Coverage(Family):
                     tags.append(f"unmodelled:{cls}.{n}")
                 else:
                     tags.append(f"modelled:{cls}.{n}")
-        tags += ["unmodelled:sptenrand", "unmodelled:sptendiag", "modelled:tensor.to_sptensor"]
+        tags += ["modelled:sptenrand", "modelled:sptendiag", "modelled:tensor.to_sptensor"]
         v = Verdict("ok", "", {"introspected": {k: sorted(v) for k, v in found.items()}}, None, None, tags, False)
         if missing:
             v = Verdict("corr", "public sparse-returning methods not covered by the C06 families: " + ", ".join(missing),
@@ -937,4 +1177,4 @@ class Coverage(Family):
 
 
 def families():
-    return [OrderIndependence(), Collisions(), Constructors(), Coverage()]
+    return [CellPairs(), OrderIndependence(), Collisions(), Constructors(), Coverage()]
